@@ -215,17 +215,22 @@ def expectations(c, af, lines):
     insts = oracles.spec_instances(c["adef"]) or []
     want_addr = {oracles.path_key(x["path"]): x for x in insts}
     ops_in = []
+    hx = lambda bs: "".join("%02x" % b for b in bs) or "-"
     for ln in lines:
         if ln["kind"] in ("get", "set"):
             acc = ln["field"]["getter"] if ln["kind"] == "get" else ln["field"]["setter"]
             ops_in.append(ops_line_for(ln["kind"], ln["fs"], acc, ln["data"], ln.get("value")))
+        elif ln["kind"] == "bitops":
+            ops_in.append(f"F {hx(ln['a'])} {hx(ln['b'])}")       # the Lean model of the value operations (DDV.Props.C06Ops)
+        elif ln["kind"] == "bytes":
+            ops_in.append(f"F {hx(ln['data'])} {hx(ln['data'])}")
     ops_out = []
     if ops_in:
         r = subprocess.run([DRIVER, "ops"], input="\n".join(ops_in) + "\n", capture_output=True, text=True)
         ops_out = r.stdout.strip().split("\n")
     oi = 0
     for ln in lines:
-        if ln["kind"] in ("get", "set"):
+        if ln["kind"] in ("get", "set", "bitops", "bytes"):
             mw = ops_out[oi].split() if oi < len(ops_out) else ["fail"]
             oi += 1
             ln["model"] = mw
@@ -320,13 +325,17 @@ def compare(c, af, lines, printed, want_addr, mf=None):
                     bad.append((f"compiled setter leaves {w[0]}, the Lean model of the codec gives {mw[1]}", ln["field"]["name"]))
         elif ln["kind"] == "bytes":
             want = "".join("%02x" % b for b in ln["data"])
-            if w[0] != want:
-                bad.append((f"From<[u8; N]> then Into<[u8; N]> gives {w[0]}, the bytes were {want}", ln["fs"]))
+            mw = ln.get("model", ["fail"])
+            if w[0] != want or (mw[0] == "ok" and mw[5] != want):
+                bad.append((f"From<[u8; N]> then Into<[u8; N]> gives {w[0]}, the bytes were {want} (Lean model: {mw[5] if mw[0] == 'ok' else mw})", ln["fs"]))
         elif ln["kind"] == "bitops":
             hx = lambda bs: "".join("%02x" % b for b in bs)
             a, b = ln["a"], ln["b"]
             want = [hx([x & y for x, y in zip(a, b)]), hx([x | y for x, y in zip(a, b)]), hx([x ^ y for x, y in zip(a, b)]),
                     hx([(~x) & 0xFF for x in a])]
+            mw = ln.get("model", ["fail"])
+            if mw[0] == "ok" and mw[1:5] != want:
+                bad.append((f"the Lean model of the value operations gives {mw[1:5]}, bytewise it is {want}", ln["fs"]))
             want += want[:3]
             names = ["&", "|", "^", "!", "&=", "|=", "^="]
             for nm, g_, w_ in zip(names, w, want):
